@@ -369,7 +369,18 @@ func (m Manager) SetNodeResourceCapacity(ctx context.Context, nodename string, n
 
 func (m Manager) mergeCapacity(m1 map[string]*plugintypes.NodeDeployCapacity, m2 map[string]*plugintypes.NodeDeployCapacity) map[string]*plugintypes.NodeDeployCapacity {
 	if m1 == nil {
-		return m2
+		// the first answer enters the weighted sum like every other one
+		// (and the plugin's own response is left untouched)
+		resp := map[string]*plugintypes.NodeDeployCapacity{}
+		for nodename, info2 := range m2 {
+			resp[nodename] = &plugintypes.NodeDeployCapacity{
+				Capacity: info2.Capacity,
+				Rate:     info2.Rate * info2.Weight,
+				Usage:    info2.Usage * info2.Weight,
+				Weight:   info2.Weight,
+			}
+		}
+		return resp
 	}
 
 	resp := map[string]*plugintypes.NodeDeployCapacity{}
